@@ -190,8 +190,9 @@ pub fn build(x: &Value, native: bool, arena: &mut Arena) -> &'static dyn Aml {
                 let fields = list(x, "fields")
                     .iter()
                     .map(|f| match str_of(get(f, "k")) {
-                        "named" => FieldEntry::Named(arr_n(get(f, "name")), u64_of(get(f, "bits")) as usize),
-                        _ => FieldEntry::Reserved(u64_of(get(f, "bits")) as usize),
+                        // "bitsw": a width beyond 2^31 as a little-endian byte string
+                        "named" => FieldEntry::Named(arr_n(get(f, "name")), u64_of(f.get("bitsw").unwrap_or_else(|| get(f, "bits"))) as usize),
+                        _ => FieldEntry::Reserved(u64_of(f.get("bitsw").unwrap_or_else(|| get(f, "bits"))) as usize),
                     })
                     .collect();
                 keep!(arena, aml::Field::new(path(x), access, lock, update, fields))
@@ -419,7 +420,24 @@ pub fn exec_pkglen(run: u64, prog: &Value, out: &mut Out) {
             }
         }
     }
-    out.emit(json!({"ev":"pkglen","run":run,"incl":incl,"ns":ns,"outs":outs,"panics":panics}));
+    // lengths beyond 2^31 travel as little-endian byte strings ("wide"); none of them fits a PkgLength
+    let wide: Vec<u64> = prog.get("wide").map(|w| w.as_array().expect("wide").iter().map(u64_of).collect()).unwrap_or_default();
+    let mut wouts = Vec::new();
+    let mut wpanics = Vec::new();
+    for n in &wide {
+        match guarded(|| aml::verif_create_pkg_length(*n as usize, incl)) {
+            Ok(b) => {
+                wouts.push(jbytes(&b));
+                wpanics.push(json!(false));
+            }
+            Err(()) => {
+                wouts.push(json!([]));
+                wpanics.push(json!(true));
+            }
+        }
+    }
+    out.emit(json!({"ev":"pkglen","run":run,"incl":incl,"ns":ns,"outs":outs,"panics":panics,
+        "wide":prog.get("wide").cloned().unwrap_or(json!([])),"wouts":wouts,"wpanics":wpanics}));
 }
 
 /// {"fam":"ints","vals":[[8 LE bytes]..]}: every value through every integer type that can carry it.
